@@ -169,7 +169,7 @@ structure St where
   holdExitStatus : Int := 0
   writeSrc : WSrc := .main
   writeState : Nat := 0
-  writeStateAfter : CState := .idle
+  writeStateAfter : After := .reset
   implicitWriteFlag : Bool := false
   -- unsolicited_fsm
   ustate : UState := .idle
@@ -179,7 +179,7 @@ structure St where
   ucmdType : CmdType := .none
   uwriteSrc : WSrc := .main
   uwriteState : Nat := 0
-  uwriteStateAfter : UState := .idle
+  uwriteStateAfter : After := .reset
   ring : List (Nat × CmdType) := []
   rtail : Nat := 0
   rhead : Nat := 0
